@@ -56,6 +56,11 @@ type Fault struct {
 	// Keep is the number of bytes that survive for torn/partial kinds
 	// (clipped to the data length).
 	Keep int
+	// NthWrite, when > 0, addresses the fault to the n-th write call of
+	// the operation instead of an I/O call index; KeepPermille then gives
+	// the surviving prefix as a fraction of the data.
+	NthWrite     int
+	KeepPermille int
 }
 
 // CrashPanic is the panic value that aborts an operation at a crash.
@@ -99,6 +104,7 @@ type Mem struct {
 	Log      []Access
 	seq      int
 	opIndex  int
+	opWrites int
 	Plan     []Fault
 	Fired    []Access
 	// Order, when non-nil, permutes directory listings (the interface
@@ -177,6 +183,7 @@ func (m *Mem) Get(p string) ([]byte, bool) {
 // BeginOp resets the per-operation I/O call index and installs a plan.
 func (m *Mem) BeginOp(plan []Fault) {
 	m.opIndex = 0
+	m.opWrites = 0
 	m.Plan = plan
 	m.Fired = nil
 	m.crashed = false
@@ -201,7 +208,16 @@ func (m *Mem) Seq() int { return m.seq }
 func (m *Mem) fault(op byte) (Fault, bool) {
 	idx := m.opIndex
 	m.opIndex++
+	if op == 'W' {
+		m.opWrites++
+	}
 	for _, f := range m.Plan {
+		if f.NthWrite > 0 {
+			if op == 'W' && f.NthWrite == m.opWrites && f.Kind.AppliesTo(op) {
+				return f, true
+			}
+			continue
+		}
 		if f.Index == idx && f.Kind.AppliesTo(op) {
 			return f, true
 		}
@@ -344,6 +360,9 @@ func (m *Mem) WriteFile(p string, data []byte) error {
 	}
 	if has {
 		keep := f.Keep
+		if f.NthWrite > 0 {
+			keep = len(data) * f.KeepPermille / 1000
+		}
 		if keep > len(data) {
 			keep = len(data)
 		}
